@@ -143,6 +143,18 @@ reg(
     "DESIGN.md 4.4 C14",
 )
 
+reg(
+    "C15",
+    "Every loop of the recognised shape with 2-4 barrier-separated stages (DM/compute alternating, either first; tile or whole-buffer input/output; extra "
+    "read-only operand; two loads in one stage) x 10 (lb, ub, step) triples (trip counts 0..6 incl. fewer than the number of stages, lb != 0, step != 1) x "
+    "constant / run-time upper bound goes through the real construct-pipeline, pipeline-duplicate-buffers, unroll-pipeline and dispatch-regions. Per-core "
+    "event lists are explored under ALL interleavings between barriers; every reachable outcome must give each stage of each iteration exactly the inputs "
+    "the sequential loop gives it, the same final contents of every function-visible tile, no tile outside the iteration range, no deadlock.",
+    "Trusted: machines/cores.py, machines/memview.py; tiles are objects, local buffers whole objects.",
+    "explicit-state model checking of all core interleavings between barriers against the sequential loop",
+    "DESIGN.md 4.4 C15",
+)
+
 NOT_APPLICABLE = []
 
 ALL = [f"C{i:02d}" for i in range(1, 21)]
